@@ -225,6 +225,12 @@ theorem lookup_threads_bound {P : Type} (t : Tbl P) (pred : Nat → Nat → Bool
 def blowupTbl : Tbl Nat :=
   { recs := [⟨0, 3, 0⟩, ⟨0, 3, 10268⟩, ⟨0, 3, 10268⟩], dataLen := 3, leaf := fun _ _ => [7] }
 
+/-- the answer of a lookup is bounded by the caller's `first`, for every index table (repair of F11,
+    `result.truncate(first)`: the blow-up of F16 below concerns the thread set, no longer the answer) -/
+theorem lookup_answer_bounded {P : Type} (t : Tbl P) (pred : Nat → Nat → Bool) (first : Nat) (q : List Nat) (r : List P)
+    (h : lookup t pred first q = .ok r) : r.length ≤ first :=
+  lookup_length_le_first t pred first q r h
+
 theorem blowup_lookup : lookup blowupTbl (fun n s => n == s) 100 [10268, 10268] = .ok [7, 7, 7, 7] := by decide
 
 theorem lookup_threads_linear_refuted : ¬ LookupThreadsLinear := by
